@@ -198,6 +198,9 @@ class Transform(Copyable):
             for lo_ind in range(0, n_points, batch_size):
                 hi_ind = lo_ind + batch_size
                 outputs.append(self._apply(x[lo_ind:hi_ind], **kwargs))
+            if not outputs:
+                # no points, so no batches: same as the unbatched call
+                return self._apply(x, **kwargs)
             return np.vstack(outputs)
 
     def compose_before(self, transform):
